@@ -142,6 +142,9 @@ func (a *cfgShadow) compacted(n *simNode, h absHint) {
 // prefix and the runs contain crashes)
 var cfgCrashEnabled = true
 
+// cfgCutEnabled: Abs/CfgRaft.v has STrunc / ARecvCut (requests cut by their connection in these runs)
+var cfgCutEnabled = false
+
 func (a *cfgShadow) obs(n *simNode) string {
 	r := n.r
 	if cfgCrashEnabled {
@@ -215,8 +218,10 @@ func (a *cfgShadow) record(c *simCluster, n *simNode, ev string, h absHint) {
 	}
 	post := a.logLits(n)
 	termSet := false // an action below sets the node's term to r.term
+	recvd := false   // the event was an accepted AppendEntries / InstallSnapshot request
 	switch {
 	case h.kind == "install" && h.granted:
+		recvd = true
 		acts = append(acts, fmt.Sprintf("AInstall %d %d %d [%s] %d%%nat", id, h.term, h.from, strings.Join(h.absK, ";"), sat1(r.commitIndex)))
 		termSet = true
 	case h.kind == "votereq" && h.granted:
@@ -242,9 +247,18 @@ func (a *cfgShadow) record(c *simCluster, n *simNode, ev string, h absHint) {
 			}
 		}
 		acts = append(acts, fmt.Sprintf("ASend %d %d%%nat %d%%nat %d%%nat", id, sat1(h.req.prevLogIndex), es, sat1(h.req.ldrCommitIndex)))
+	case h.kind == "recv" && h.req != nil && h.cut > 0:
+		// the connection broke after h.cut-1 whole entries: they were handled if the request passed the term and
+		// previous-entry checks (the answer is readErr either way)
+		if h.req.term >= a.preTerm && a.prevOK(h.req) {
+			acts = append(acts, fmt.Sprintf("ARecvCut %d %s %d%%nat", id, a.areq(h.req, h.ents), a.wholeAbs(h.ents, h.cut-1)))
+			termSet = true
+			recvd = true
+		}
 	case h.kind == "recv" && h.req != nil && h.granted:
 		acts = append(acts, fmt.Sprintf("ARecv %d %s", id, a.areq(h.req, h.ents)))
 		termSet = true
+		recvd = true
 	case h.kind == "ack" && r.term == a.preTerm && a.preRole == Leader:
 		acts = append(acts, fmt.Sprintf("AAck %d %d %d%%nat", id, h.from, sat1(h.match)))
 	case (strings.HasPrefix(ev, "ETimeout") || strings.HasPrefix(ev, "(ETimeoutNowReq")) && r.state == Candidate && r.term == a.preTerm+1:
@@ -256,7 +270,7 @@ func (a *cfgShadow) record(c *simCluster, n *simNode, ev string, h absHint) {
 		acts = append([]string{fmt.Sprintf("AStepdown %d %d", id, r.term)}, acts...)
 	}
 	// what a leader appended (the no-op of a victory is part of AWin) and how far it committed
-	wasOrIsLeader := (r.state == Leader || a.preRole == Leader && r.term == a.preTerm) && !((h.kind == "recv" || h.kind == "install") && h.granted)
+	wasOrIsLeader := (r.state == Leader || a.preRole == Leader && r.term == a.preTerm) && !recvd
 	if h.kind == "ack" && a.preRole == Leader && r.term == a.preTerm {
 		if a.acked[id] == nil || a.ackedTerm[id] != r.term {
 			a.acked[id], a.ackedTerm[id] = map[uint64]uint64{}, r.term
@@ -338,6 +352,33 @@ func (a *cfgShadow) record(c *simCluster, n *simNode, ev string, h absHint) {
 		}
 	}
 	a.emit(c, acts, id)
+}
+
+// prevOK: the request's previous entry matches the node's log as it was before the event
+func (a *cfgShadow) prevOK(q *appendReq) bool {
+	pi := int(sat1(q.prevLogIndex))
+	if pi == 0 {
+		return true
+	}
+	if pi > len(a.preLog) {
+		return false
+	}
+	var t uint64
+	if _, err := fmt.Sscanf(a.preLog[pi-1], "(%d,", &t); err != nil {
+		return false
+	}
+	return t == q.prevLogTerm
+}
+
+// wholeAbs: how many of the first k entries of the request are abstract entries (impl index >= 2)
+func (a *cfgShadow) wholeAbs(es []*entry, k int) int {
+	n := 0
+	for i, e := range es {
+		if i < k && e.index >= 2 {
+			n++
+		}
+	}
+	return n
 }
 
 // votersOf: the voter list of the last configuration entry among the abstract entries, else the bootstrap voters
